@@ -9,6 +9,8 @@ git -C /repo worktree add --detach /tmp/repo_mut HEAD -q
 mkdir -p /tmp/verif_mut
 rsync -a --delete --exclude .git /verif/ /tmp/verif_mut/
 sed -i 's#path = "/repo/lymui"#path = "/tmp/repo_mut/lymui"#' /tmp/verif_mut/harness/Cargo.toml
+sed -i 's#path = "/repo/js-macro"#path = "/tmp/repo_mut/js-macro"#' /tmp/verif_mut/harness_js/Cargo.toml
+sed -i 's#target-dir = "/verif/.cache/harness-js-target"#target-dir = "/tmp/verif_mut/.cache/harness-js-target"#' /tmp/verif_mut/harness_js/.cargo/config.toml
 sed -i 's#target-dir = "/verif/.cache/harness-target"#target-dir = "/tmp/verif_mut/.cache/harness-target"#' /tmp/verif_mut/harness/.cargo/config.toml
 rm -f /tmp/verif_mut/.cache/prepare.stamp
 echo "ready: /tmp/verif_mut (VERIF_REPO=/tmp/repo_mut)"
